@@ -309,3 +309,56 @@ def elementwise(func):
                             out.setdefault(name, []).append((('dict', src(later.iter), _placeholders(later.target, [f_.targets[0].slice, f_.value])), later))
                 break
     return out
+
+
+def and_flag(func, flag, g=None, fl=None):
+    """writes of a sticky-false boolean local: -> (inits, accs, others)
+    inits : Assign nodes `flag = <expr>` that do not read the flag (the starting value)
+    accs  : [(cfg node, operand text)] for writes with and-semantics: `flag = flag and E`, `flag = E and flag`, `flag &= E`, or `flag = E`
+            at a point where the flag is known to be true (`if flag: flag = E`)
+    others: cfg nodes of any other write (the flag can turn true again there)"""
+    if g is None:
+        g, fl = flow_of(func)
+    inits, accs, others = [], [], []
+    for n in g.stmt_nodes():
+        if n.kind != 'stmt':
+            continue
+        a = n.ast
+        if isinstance(a, ast.AugAssign) and src(a.target) == flag:
+            if isinstance(a.op, ast.BitAnd):
+                accs.append((n, src(a.value)))
+            else:
+                others.append(n)
+            continue
+        if not (isinstance(a, ast.Assign) and len(a.targets) == 1 and src(a.targets[0]) == flag):
+            if isinstance(a, (ast.Assign, ast.For)) and any(isinstance(x, ast.Name) and x.id == flag and isinstance(x.ctx, ast.Store)
+                                                          for t in (a.targets if isinstance(a, ast.Assign) else [a.target]) for x in ast.walk(t)):
+                others.append(n)
+            continue
+        v = a.value
+        reads = any(isinstance(x, ast.Name) and x.id == flag for x in ast.walk(v))
+        if isinstance(v, ast.BoolOp) and isinstance(v.op, ast.And) and any(src(x) == flag for x in v.values):
+            rest = [x for x in v.values if src(x) != flag]
+            accs.append((n, src(rest[0]) if len(rest) == 1 else src(ast.BoolOp(op=ast.And(), values=rest))))
+        elif not reads and fl.at(n) and all(fa.knows(flag) is True for fa, _c in fl.at(n)):
+            accs.append((n, src(v)))
+        elif not reads:
+            inits.append(n)
+        else:
+            others.append(n)
+    return inits, accs, others
+
+
+def passes_before(g, start, target, through):
+    """every path from start to target (start excluded) goes through one of the nodes `through`"""
+    ids = set(t.id for t in through)
+    seen, work = set(), [x for x, l in start.succ if not (l and l[0] == 'exc')]
+    while work:
+        n = work.pop()
+        if n.id in seen or n.id in ids:
+            continue
+        seen.add(n.id)
+        if n is target:
+            return False
+        work.extend(x for x, l in n.succ if not (l and l[0] == 'exc'))
+    return True
